@@ -5,15 +5,18 @@
 (* byte alphabet chosen to contain tags of every wire type (legal and      *)
 (* illegal), group delimiters, small lengths and varint continuation       *)
 (* bytes.  TLC therefore visits EVERY byte string up to length L; in each  *)
-(* state the total parser (Wire!ParseAt) and the Skip machine              *)
-(* (Wire!SkipStep, mirroring runtime.Skip loop iteration by iteration) are *)
-(* evaluated and compared.                                                 *)
+(* state the total parser (Wire!ParseAt) and the skipper (Wire!StrictSkip, *)
+(* or with VERIF_LAX = "1" the lax loop machine Wire!LaxSkip that the code *)
+(* implemented before the fix) are evaluated and compared.                 *)
 (*                                                                         *)
-(*   SkipProgress  -- every Skip loop iteration strictly advances idx      *)
+(*   SkipProgress  -- a successful Skip consumes at least one byte (and    *)
+(*                    every iteration of the lax machine advances idx)     *)
 (*   SkipAgrees    -- on a buffer that starts with a well-formed record    *)
 (*                    (groups matched) Skip returns exactly its length     *)
-(*   SkipSound     -- Skip never reports success on a buffer whose first   *)
-(*                    record is truncated or has an illegal wire type      *)
+(*   SkipSound     -- Skip accepts NOTHING else: what it accepts is kept   *)
+(*                    verbatim as unknown fields and re-parsed by          *)
+(*                    protobuf-go, which panics on invalid wire data (C06: *)
+(*                    "a message it accepts can afterwards be compared")   *)
 (*                                                                         *)
 (* With VERIF_EXPORT = "1" each state is printed with the model's outcome  *)
 (* for replay against runtime.Skip, protowire.ConsumeField and Unmarshal.  *)
@@ -22,6 +25,8 @@ EXTENDS Wire, TLC, Json, IOUtils
 
 L      == atoi(IOEnv.VERIF_MAXLEN)
 Export == IOEnv.VERIF_EXPORT = "1"
+Lax    == "VERIF_LAX" \in DOMAIN IOEnv /\ IOEnv.VERIF_LAX = "1"
+Skip(b) == IF Lax THEN LaxSkip(b) ELSE StrictSkip(b)
 
 \*         0  1  2  f1:varint f1:fixed64 f1:bytes f1:sgroup f1:egroup f1:fixed32 wt6 wt7 f2:sgroup f2:egroup  0x7f 0x80 0xff
 Bytes == {0, 1, 2, 8,       9,         10,      11,       12,       13,        14, 15, 19,       20,        127, 128, 255}
@@ -33,11 +38,12 @@ VARIABLES buf
 RECURSIVE SkipProgressFrom(_, _, _)
 SkipProgressFrom(b, idx, depth) ==
     IF idx >= Len(b) THEN TRUE
-    ELSE LET s == SkipStep(b, idx, depth)
+    ELSE LET s == LaxSkipStep(b, idx, depth)
          IN IF s.err # "" \/ s.done THEN (s.err # "" \/ s.idx > idx)
             ELSE s.idx > idx /\ SkipProgressFrom(b, s.idx, s.depth)
 
-SkipProgress == SkipProgressFrom(buf, 0, 0)
+SkipProgress == /\ (Skip(buf).err = "" => Skip(buf).n >= 1 /\ (~Lax => Skip(buf).n <= Len(buf)))
+                /\ (Lax => SkipProgressFrom(buf, 0, 0))
 
 First == ParseAt(buf, 1, MaxGroupDepth)
 
@@ -46,11 +52,9 @@ FirstOK == buf # <<>> /\ First.ok /\ First.wt # 4
 
 SkipAgrees == FirstOK => Skip(buf) = [err |-> "", n |-> First.e - 1]
 
-\* Skip may be more lenient than the total parser only in the documented ways: unmatched group
-\* numbers, fixed-width payloads running past the end (the generated caller re-checks the
-\* bound), tag numbers it does not validate (0, > 2^29-1), and 10th varint bytes > 1
-Lenient == {"group", "eof", "tag0", "bigtag", "overflow", "depth"}
-SkipSound == (buf # <<>> /\ ~First.ok /\ First.err \notin Lenient) => Skip(buf).err # ""
+\* whatever Skip accepts starts with a well-formed record (nesting beyond the model's group depth
+\* bound is outside the model: class "depth")
+SkipSound == (buf # <<>> /\ ~FirstOK /\ ~(~First.ok /\ First.err = "depth")) => Skip(buf).err # ""
 
 Outcome ==
     [b |-> buf, skip |-> Skip(buf), first |-> IF First.ok THEN [ok |-> TRUE, e |-> First.e - 1, wt |-> First.wt] ELSE [ok |-> FALSE, err |-> First.err],
